@@ -31,6 +31,24 @@ CLAIMED.update({
     ),
 })
 
+CLAIMED.update({
+    "C03": (
+        "constant folding of the key-table builder over every database entry (typed-AST evaluator), SSA guard-shape rules for the registrars, exhaustive table checks, capability coverage",
+        "Decided exhaustively over the 49 entries of the database as constants of the source: the key table each entry produces (folded from the builder, whose registrar semantics are first established from SSA) is prefix-free, maps every capability's sequence to the key and modifiers the capability's name denotes, pairs xterm modifier parameters 2..16 with xterm's Shift/Alt/Ctrl/Meta masks and replaces function-key aliases consistently, maps control bytes to Ctrl keys, contains no sequence shadowed by the rune parser, and every populated key capability is registered. NewEventKey's control-rune normalisation is checked by shape. The run-time matcher (Alt prefix, timeout, concatenated sequences) is not decided here.",
+        "Trusted: the evaluator's statement subset (anything outside it is reported undecided), xterm's PC-style modifier encoding (1 + bitmask) and function-key alias offsets frozen in the checker.",
+    ),
+    "C14": (
+        "constant extraction of all database literals, reference terminfo(5) parser, call-site arity derivation, ownership rule on *Terminfo stores (SSA), lock dominance on the registry",
+        "Decided exhaustively over all entries x fields (constants of the source): literal entries, unique names/aliases, aggregate imports, two-parameter cursor addressing, well-formed programs within the parameters supplied at the library's TParm call sites, colour-count consistency, prefix-free key tables. Lookup stability is decided as an ownership rule on all paths (no store through a *Terminfo that may alias a registered entry), plus synthesised strings denoting the standard SGR forms for every index, ErrTermNotFound on failure, documented environment constants, registration and map access under the mutex. The infocmp loader and environment-dependent behaviour are not decided.",
+        "Trusted: reference terminfo(5) parser/interpreter and ECMA-48 tokenizer in the checker (self-tested on every run), go/types constant evaluation.",
+    ),
+    "C15": (
+        "reference terminfo(5) interpreter applied to source constants: exhaustive evaluation of cup over the position grid and of colour programs over all indices per entry; SSA shape rules for TGoto/TColor/TPuts",
+        "For each of the 49 entries the cursor-addressing constant is evaluated by an independent reference interpreter over rows x columns 0..300 (quick: 30 rows/cols x all; thorough: the full grid) and must equal the string its addressing convention defines; colour programs are evaluated for every index below the colour count and must denote that palette entry; TGoto's argument order, TColor's folding/range comparisons and TPuts' bounds and progress are checked on SSA. This decides the data and the argument plumbing, given a TParm that implements terminfo(5) (C07); the padding grammar is not decided.",
+        "Trusted: the reference interpreter (written from terminfo(5), self-tested), the three addressing conventions and SGR colour forms frozen in the checker.",
+    ),
+})
+
 # id -> reason for properties not (yet) claimed
 NOT_APPLICABLE = {
 }
